@@ -66,6 +66,9 @@ func Schemata(p *core.Prog, r *core.Report) {
 				if strings.Contains(a, "ok(") || strings.Contains(a, ".schemata.") || strings.HasPrefix(a, "recv.cached") || loopCond(c.If.Block(), c.Value) {
 					continue
 				}
+				if paramNilTest(c, f.Params[0]) {
+					continue // a nil result has recorded nothing
+				}
 				bad = append(bad, a)
 			}
 			key := fmt.Sprintf("accessor:%s:total#%d", an, nAcc)
@@ -368,6 +371,9 @@ func postRules(p *core.Prog, r *core.Report) {
 		eachBody(func(i ssa.Instruction) {
 			switch x := i.(type) {
 			case *ssa.MapUpdate:
+				if _, fresh := x.Map.(*ssa.MakeMap); fresh {
+					return // filling a map made in this activation (the copy helper)
+				}
 				nW++
 				obj, isO := isCallOf(x.Map, "(*validate.FieldKey).Object")
 				fld, isF := isCallOf(x.Key, "(*validate.FieldKey).Field")
@@ -375,9 +381,20 @@ func postRules(p *core.Prog, r *core.Report) {
 					okW, why = false, "the write is not key.Object()[key.Field()] of one key"
 					return
 				}
-				// value: s.Default of a schema ranging over that key's schemata
-				if pth, has := core.Path(x.Value); !has || !strings.HasSuffix(pth, ".Default") {
-					okW, why = false, "the value written is not the Default of one of the member's schemata"
+				// value: a deep copy of s.Default of a schema ranging over that key's schemata — the default itself
+				// (its maps and slices) belongs to the schema: inserted by reference, the next validation of the
+				// document records members of the schema's own default object and the next ApplyDefaults writes into it
+				val := x.Value
+				copied := false
+				if cc, isCall := val.(*ssa.Call); isCall {
+					if h := core.StaticCallee(cc); h != nil && seenF[h] && len(cc.Call.Args) == 1 && deepCopies(h) {
+						val, copied = cc.Call.Args[0], true
+					}
+				}
+				if pth, has := core.Path(val); !has || !strings.HasSuffix(pth, ".Default") {
+					okW, why = false, "the value written is not (a copy of) the Default of one of the member's schemata"
+				} else if !copied {
+					okW, why = false, "the default is inserted by reference: its maps and slices are the schema's own, so later validations and defaulting of the document write into the schema (and a caller editing its document edits the schema's default)"
 				}
 				// guarded by: not found (comma-ok lookup of the same object/field) and Default != nil
 				notFound, hasDef := false, false
@@ -402,6 +419,9 @@ func postRules(p *core.Prog, r *core.Report) {
 					okW, why = false, "the write is not confined to schemata that declare a default"
 				}
 			case *ssa.Store:
+				if _, isMk := baseOfAddr(x.Addr).(*ssa.MakeSlice); isMk {
+					return // filling a slice made in this activation (the copy helper)
+				}
 				if _, isAl := baseOfAddr(x.Addr).(*ssa.Alloc); !isAl {
 					nW++
 					okW, why = false, "a store other than the member insertion"
@@ -643,4 +663,84 @@ func postRules(p *core.Prog, r *core.Report) {
 			r.Bad(rule, "Prune:recursion", p.Pos(f.Pos()), "pruning no longer reaches every nested object (map values and slice elements)")
 		}
 	}
+}
+
+// deepCopies: h(v interface{}) interface{} returns, for a map[string]interface{} or []interface{} argument, a
+// container made in this activation whose elements are all produced by h itself (recursion), and the argument
+// unchanged only where both type tests failed.
+func deepCopies(h *ssa.Function) bool {
+	if len(h.Params) != 1 || h.Signature.Results().Len() != 1 || len(h.Blocks) == 0 {
+		return false
+	}
+	prm := h.Params[0]
+	madeMap, madeSlice := false, false
+	ok := true
+	for _, b := range h.Blocks {
+		ret, isRet := b.Instrs[len(b.Instrs)-1].(*ssa.Return)
+		if !isRet {
+			continue
+		}
+		v := ret.Results[0]
+		if mi, isMI := v.(*ssa.MakeInterface); isMI {
+			v = mi.X
+		}
+		switch x := v.(type) {
+		case *ssa.MakeMap:
+			madeMap = true
+			// every update of the fresh map stores a recursive copy
+			for _, ref := range core.Refs(x) {
+				if mu, isMU := ref.(*ssa.MapUpdate); isMU && mu.Map == ssa.Value(x) {
+					c, isC := mu.Value.(*ssa.Call)
+					if !isC || core.StaticCallee(c) != h {
+						ok = false
+					}
+				}
+			}
+		case *ssa.MakeSlice:
+			madeSlice = true
+			for _, ref := range core.Refs(x) {
+				if ia, isIA := ref.(*ssa.IndexAddr); isIA {
+					for _, r2 := range core.Refs(ia) {
+						if st, isSt := r2.(*ssa.Store); isSt && st.Addr == ssa.Value(ia) {
+							c, isC := st.Val.(*ssa.Call)
+							if !isC || core.StaticCallee(c) != h {
+								ok = false
+							}
+						}
+					}
+				}
+			}
+		case *ssa.Parameter:
+			if x != prm {
+				ok = false
+			}
+			// only where the value is neither a map nor a slice: two failed comma-ok type tests dominate
+			failed := 0
+			for _, cd := range core.CondsAt(b) {
+				if ex, isEx := cd.Value.(*ssa.Extract); isEx && !cd.Sense {
+					if ta, isTA := ex.Tuple.(*ssa.TypeAssert); isTA && ta.CommaOk && ta.X == ssa.Value(prm) {
+						switch ta.AssertedType.Underlying().(type) {
+						case *types.Map, *types.Slice:
+							failed++
+						}
+					}
+				}
+			}
+			if failed < 2 {
+				ok = false
+			}
+		default:
+			ok = false
+		}
+	}
+	return ok && madeMap && madeSlice
+}
+
+// paramNilTest: the condition compares the parameter itself with nil.
+func paramNilTest(c core.Cond, prm *ssa.Parameter) bool {
+	bo, ok := c.Value.(*ssa.BinOp)
+	if !ok || (bo.Op != token.EQL && bo.Op != token.NEQ) {
+		return false
+	}
+	return (bo.X == ssa.Value(prm) && core.IsNilConst(bo.Y)) || (bo.Y == ssa.Value(prm) && core.IsNilConst(bo.X))
 }
